@@ -36,7 +36,13 @@ pub fn header_fields(frame: &[u8]) -> Vec<Field> {
             v.push(f(20, 2, "ip4.flags_frag"));
             let l4 = 34;
             match frame[23] {
-                P_TCP if frame.len() >= l4 + 20 => v.push(f(l4 + 12, 1, "tcp.doff")),
+                P_TCP if frame.len() >= l4 + 20 => {
+                    v.push(f(l4 + 12, 1, "tcp.doff"));
+                    v.push(f(l4 + 13, 1, "tcp.flags"));
+                    v.push(f(l4 + 4, 4, "tcp.seq"));
+                    v.push(f(l4 + 8, 4, "tcp.ack"));
+                    v.push(f(l4 + 14, 2, "tcp.window"));
+                }
                 P_UDP if frame.len() >= l4 + 8 => v.push(f(l4 + 4, 2, "udp.length")),
                 _ => {}
             }
@@ -46,7 +52,13 @@ pub fn header_fields(frame: &[u8]) -> Vec<Field> {
             v.push(f(18, 2, "ip6.payload_length"));
             let l4 = 54;
             match frame[20] {
-                P_TCP if frame.len() >= l4 + 20 => v.push(f(l4 + 12, 1, "tcp.doff")),
+                P_TCP if frame.len() >= l4 + 20 => {
+                    v.push(f(l4 + 12, 1, "tcp.doff"));
+                    v.push(f(l4 + 13, 1, "tcp.flags"));
+                    v.push(f(l4 + 4, 4, "tcp.seq"));
+                    v.push(f(l4 + 8, 4, "tcp.ack"));
+                    v.push(f(l4 + 14, 2, "tcp.window"));
+                }
                 P_UDP if frame.len() >= l4 + 8 => v.push(f(l4 + 4, 2, "udp.length")),
                 P_ICMP6 if frame.len() >= l4 + 26 && frame[l4] == 135 => {
                     // ND option type/length bytes
